@@ -292,12 +292,71 @@ type c26Rig struct {
 	tb       testing.TB
 }
 
-func c26NewRig(tb testing.TB, api *API) *c26Rig {
+func c26NewRig(tb testing.TB, api *API) *c26Rig { return c26NewRigMode(tb, api, "ssrc") }
+
+// c26Modes: how the receiver learns about the two streams. "ssrc": both SSRCs announced in the SDP (what
+// startReceive does); "rid-primary-first" / "rid-repair-first": a simulcast layer announced by RID only, its
+// primary (rid) and repair (rsid) streams discovered from the media in either order (handleIncomingSSRC).
+var c26Modes = []string{"ssrc", "rid-primary-first", "rid-repair-first"}
+
+func c26NewRigMode(tb testing.TB, api *API, mode string) *c26Rig {
 	tb.Helper()
 	r := &c26Rig{in: make(chan []byte), asked: make(chan struct{}, 1), buf: make([]byte, 2000), tb: tb}
 	receiver, err := api.NewRTPReceiver(RTPCodecTypeVideo, &DTLSTransport{api: api})
 	if err != nil {
 		vkit.Fatalf(tb, "NewRTPReceiver: %v", err)
+	}
+	if mode != "ssrc" {
+		receiver.configureReceive(RTPReceiveParameters{Encodings: []RTPDecodingParameters{{
+			RTPCodingParameters: RTPCodingParameters{RID: "a"},
+		}}})
+		close(receiver.received)
+		primary := interceptor.RTPReaderFunc(func(b []byte, a interceptor.Attributes) (int, interceptor.Attributes, error) {
+			return copy(b, c26Sentinel), a, nil
+		})
+		repair := interceptor.RTPReaderFunc(func(b []byte, a interceptor.Attributes) (int, interceptor.Attributes, error) {
+			r.asked <- struct{}{}
+			p, ok := <-r.in
+			if !ok {
+				return 0, a, io.EOF
+			}
+
+			return copy(b, p), a, nil
+		})
+		params := RTPParameters{Codecs: []RTPCodecParameters{{
+			RTPCodecCapability: RTPCodecCapability{MimeType: MimeTypeVP8, ClockRate: 90000}, PayloadType: c26PrimaryPT,
+		}}}
+		bindPrimary := func() {
+			tr, err := receiver.receiveForRid("a", params, &interceptor.StreamInfo{SSRC: c26PrimarySSRC}, nil, primary, true, nil, nil, nil)
+			if err != nil {
+				vkit.Fatalf(tb, "receiveForRid: %v", err)
+			}
+			r.track = tr
+		}
+		bindRepair := func() {
+			// startImmediately=true is what the default interceptors make streamsForSSRC report
+			if err := receiver.receiveForRtx(0, "a", &interceptor.StreamInfo{SSRC: c26RtxSSRC}, nil, repair, true, nil, nil); err != nil {
+				vkit.Fatalf(tb, "receiveForRtx: %v", err)
+			}
+		}
+		if mode == "rid-primary-first" {
+			bindPrimary()
+			bindRepair()
+		} else {
+			bindRepair()
+			bindPrimary()
+		}
+		r.receiver = receiver
+		n, _, err := r.track.Read(r.buf)
+		if err != nil || !bytes.Equal(r.buf[:n], c26Sentinel) {
+			vkit.Fatalf(tb, "first Read (%s): n=%d err=%v", mode, n, err)
+		}
+		r.waitAsked()
+		if r.track.PayloadType() != c26PrimaryPT || r.track.SSRC() != c26PrimarySSRC {
+			vkit.Fatalf(tb, "track not set up (%s): pt=%d ssrc=%d", mode, r.track.PayloadType(), r.track.SSRC())
+		}
+
+		return r
 	}
 	receiver.configureReceive(RTPReceiveParameters{Encodings: []RTPDecodingParameters{{
 		RTPCodingParameters: RTPCodingParameters{SSRC: c26PrimarySSRC, RTX: RTPRtxParameters{SSRC: c26RtxSSRC}},
@@ -487,7 +546,7 @@ func TestVerifC26(t *testing.T) {
 
 	c := vkit.New("C26", "exploration")
 	defer c.Finish(t)
-	c.Rule("cases = CSRC count 0..15 x extension {none, one-byte profile 0/1/3 words, two-byte profile 2 words, RFC 3550 profile 1 word, length field just beyond the packet, length field 0x3FFF, 0xFFFF} x padding {none, 1, 4, 255, leaving exactly the OSN, leaving one byte, larger than the payload} x RTX payload length {0,1,2,3,4,100, up to the 1460-byte MTU} x marker x timestamp {0, 2^32-2} x OSN {0, 0xFFFF, 0x1234}; every packet goes through the real repair-reader goroutine of RTPReceiver and comes back through TrackRemote.Read; a class (extension x padding x outcome) is non-trivial when the packet reached the rewrite")
+	c.Rule("cases = CSRC count 0..15 x extension {none, one-byte profile 0/1/3 words, two-byte profile 2 words, RFC 3550 profile 1 word, length field just beyond the packet, length field 0x3FFF, 0xFFFF} x padding {none, 1, 4, 255, leaving exactly the OSN, leaving one byte, larger than the payload} x RTX payload length {0,1,2,3,4,100, up to the 1460-byte MTU} x marker x timestamp {0, 2^32-2} x OSN {0, 0xFFFF, 0x1234}, all with both SSRCs announced; plus the ways a RID-only simulcast layer's primary and repair streams are discovered {primary first, repair first} x a 32-case sub-product of the layouts; every packet goes through the real repair-reader goroutine of RTPReceiver and comes back through TrackRemote.Read; a class (extension x padding x outcome) is non-trivial when the packet reached the rewrite")
 	c.Assume("packets whose fixed header / CSRC list / 4-byte extension header is itself truncated are not generated: SRTP never hands them over, and what the code does with them depends on stale bytes of a pooled buffer")
 	c.Assume("a padding count of 0 with the P bit set is not generated (malformed per RFC 3550; the statement is silent)")
 
@@ -571,6 +630,47 @@ func TestVerifC26(t *testing.T) {
 		}(w)
 	}
 	wg.Wait()
+	// ---- part 2: how the streams were discovered x a sub-product of the layouts --------------------------
+	// (CSRC count {0,3} x extension {none, one-byte 1 word} x padding {none, 4} x the first two payload lengths
+	//  >= 2 of the tier x marker, first timestamp and OSN)
+	nOrders := 0
+	for _, mode := range c26Modes[1:] {
+		rig := c26NewRigMode(t, api, mode)
+		for idx := 0; idx < total; idx++ {
+			v := vkit.ProductIndex(idx, c26Dims()...)
+			if (v[0] != 0 && v[0] != 3) || (v[1] != 0 && v[1] != 2) || (v[2] != 0 && v[2] != 2) || v[5] != 0 || v[6] != 0 {
+				continue
+			}
+			if pl := c26PayLens[v[3]]; pl != 2 && pl != 100 {
+				continue
+			}
+			if crashed[idx] {
+				continue
+			}
+			cs, pkt, want, _, ok := c26Build(idx)
+			if !ok || want == nil {
+				continue
+			}
+			nOrders++
+			c.Eval()
+			got, _, twice := rig.feed(pkt)
+			rep := map[string]any{"binding": mode, "case": cs, "packet_hex": fmt.Sprintf("%x", pkt[:min(len(pkt), 200)]), "delivered_hex": fmt.Sprintf("%x", got[:min(len(got), 200)])}
+			switch {
+			case twice:
+				c.Violation("delivered-twice|binding="+mode, "one RTX packet produced two packets on the track — "+vkit.Short(rep), rep)
+			case got == nil:
+				c.Violation("dropped|binding="+mode, "well-formed RTX packet was dropped — "+vkit.Short(rep), rep)
+			default:
+				if d := c26Compare(want, got, cs.CC, pkt[0]&0x20 != 0); d != "" {
+					c.Violation("field:"+d+"|binding="+mode, fmt.Sprintf("streams bound %s: delivered packet differs from the RFC 4588 original in %s: want %x — %s", mode, d, want[:min(len(want), 80)], vkit.Short(rep)), rep)
+				} else {
+					c.Distinct("binding=" + mode + "|delivered")
+				}
+			}
+		}
+		rig.close()
+	}
+	c.Set("binding_order_cases", nOrders)
 	c.Set("product_size", total)
 	c.Set("packets_built", built)
 	s1, p1, _, _, _ := c26Build(vkit.ProductSize(c26Dims()...) / 3)
